@@ -45,3 +45,25 @@ PROPS["C02"] = {
     "assumptions": ["IDs without NUL (D9 is an open known finding: with a NUL the id line is ignored by decoders)",
                     "bytes are not decoded as UTF-8 (Go strings are byte sequences)"],
 }
+
+FAMILIES["heap"] = {}
+PROPS["C19"] = {
+    "families": ["heap", "message"],
+    "level_text": "Proof on an explicit slice heap: Message.chunks is modelled as (backing array, len, cap) over a heap of arrays with Go's "
+                  "append (in place when len < cap, else a fresh array whose capacity is an input, so every choice of the runtime is "
+                  "covered), Clone as chunks[:len:len], reset, field assignment, and Put with automatic IDs as Clone + set ID. Theorem: "
+                  "after EVERY operation sequence each member of the family reads from the heap exactly the chunks it would hold were "
+                  "slices immutable values (C19_heap_is_value_semantics; invariant: per array at most one sharer has spare capacity and "
+                  "every other sharer is full and not longer), hence an operation changes nobody but its target (C19_others_unchanged), "
+                  "Put leaves its argument untouched and stores a copy with the generated ID (C19_put_does_not_modify_argument), and one "
+                  "message published k times gets k consecutive IDs in both replayers (C19_same_message_k_times_*). Tie: array identity "
+                  "(address), len, cap and the encoding of EVERY member are compared with the model after every operation on real messages.",
+    "level_note": MESSAGE_NOTE + "; slices always start at offset 0 of their array (true of message.go: chunks[:len:len] and append only); "
+                  "backing-array identity is observed through the address of the first element (VerifChunkBase, verif tag) with the "
+                  "collector switched off inside one case; struct copies (m2 := *m) bypass Clone and are outside the property",
+    "rule": "exhaustive: templates of 0..9 lines cloned twice (clone of the original or of the first clone), then appends to the three members in "
+            "all 6 orders; one message published 1..6 times through both replayers with appends in between; seeded random sequences of "
+            "append/set/clear fields/Clone/reset/Put on families of up to 8 members; plus the message family's clone/append histories; "
+            "non-trivial = distinct inputs",
+    "assumptions": ["slices start at offset 0 of their backing array", "fewer than 2^64 publications"],
+}
